@@ -45,7 +45,8 @@ class MultiConstraint(BaseConstraint):
             if other.operator == "==":
                 return self.allows(other)
 
-            return other.operator == "!="
+            # conservative for "!=", "in" and "not in"
+            return True
 
         if isinstance(other, UnionConstraint):
             return any(
@@ -74,18 +75,34 @@ class MultiConstraint(BaseConstraint):
         if other in self._constraints:
             return self
 
-        if other.value in (c.value for c in self._constraints):
-            # same value but different operator, e.g. '== "linux"' and '!= "linux"'
-            return EmptyConstraint()
-
         if other.operator == "==" and "==" not in self.OPERATORS:
-            return other
+            # a single value: either all members admit it or nothing is left
+            return other if self.allows(other) else EmptyConstraint()
+
+        if other.invert() in self._constraints:
+            # complementary members, e.g. '== "a"' and '!= "a"' (extras)
+            # or "'x' in" and "'x' not in"
+            return EmptyConstraint()
 
         return self.__class__(*self._constraints, other)
 
+    def _only_ne(self) -> bool:
+        return all(c.operator == "!=" for c in self._constraints)
+
     def union(self, other: BaseConstraint) -> BaseConstraint:
+        from poetry.core.constraints.generic import UnionConstraint
+
         if isinstance(other, MultiConstraint):
+            ours = set(self.constraints)
             theirs = set(other.constraints)
+            if not (self._only_ne() and other._only_ne()):
+                # "in" / "not in" members: keeping the common members
+                # is not exact, only absorption is
+                if ours.issubset(theirs):
+                    return self
+                if theirs.issubset(ours):
+                    return other
+                return UnionConstraint(self, other)
             common = [c for c in self.constraints if c in theirs]
             if not common:
                 return AnyConstraint()
@@ -97,6 +114,11 @@ class MultiConstraint(BaseConstraint):
         if other in self._constraints:
             return other
 
+        if not (self._only_ne() and other.operator in {"==", "!="}):
+            if other.operator == "==" and self.allows(other):
+                return self
+            return UnionConstraint(self, other)
+
         if other.value not in (c.value for c in self._constraints):
             if other.operator == "!=":
                 return AnyConstraint()
@@ -104,6 +126,9 @@ class MultiConstraint(BaseConstraint):
             return self
 
         constraints = [c for c in self._constraints if c.value != other.value]
+
+        if not constraints:
+            return AnyConstraint()
 
         if len(constraints) == 1:
             return constraints[0]
